@@ -142,8 +142,16 @@ func run(c *rig.Ctx) {
 				}
 				m.CPU.XResetToBoundary()
 				m.CPU.XSetRegs(toX(regs))
-				m.Mem.Write(0xffff, ie)
-				m.Mem.Write(0xff0f, iff)
+				// IE and IF are written in either order (whichever comes last, the decision
+				// is made from both)
+				if (rep+idle+k)%2 == 0 {
+					m.Mem.Write(0xffff, ie)
+					m.Mem.Write(0xff0f, iff)
+				} else {
+					m.Mem.Write(0xff0f, iff)
+					m.Mem.Write(0xffff, ^ie) // first something else, so that the final store changes IE
+					m.Mem.Write(0xffff, ie)
+				}
 				m.Mem.Write(0xff07, 0)
 				if ime {
 					m.IRQ.Enable()
